@@ -289,7 +289,7 @@ pub fn make_knobs(profile: Profile, rng: &mut Rng, thorough: bool) -> Knobs {
         fast_forward: rng.chance(1, 4),
         non_default_rent: rng.chance(1, 5),
         slots_per_epoch: 432_000,
-        spacing_choices: vec![1, 8, 64, 128, 32768],
+        spacing_choices: vec![1, 2, 4, 8, 64, 128, 32768],
         adaptive_pct: 0,
         extreme_rewards: false,
         v2_only: false,
